@@ -175,7 +175,7 @@ def batch_native(max_n, lo, hi):
 
 
 def conditions(tier, seed):
-    N = 5 if tier == 'quick' else 6
+    N = 5 if tier == 'quick' else 7
     conds = cards_conditions('c16_ops', 'c16', 'ops', indexed_shapes(N), 30 if tier == 'quick' else 90,
                              'six tree operations == reference tree facts (cards symbolic)')
     # symbolic widths of the leaf groups
@@ -222,7 +222,7 @@ def info(tier):
                         'branching factor compared after the widths are pinned by the path; root-only model must return a number',
                         'the shipped 20000-feature corpus is not part of the solver claim'],
         'coverage': {'functions_encoded': ['count_leaf_features', 'get_leaf_features', 'max_depth_tree', 'average_branching_factor', 'get_feature_ancestors', 'variation_points', 'FM*.execute/get_result'],
-                     'bounds': {'shapes_E1': 'N<=%d' % (5 if tier == 'quick' else 6), 'widths': '<=%d' % (4 if tier == 'quick' else 6),
+                     'bounds': {'shapes_E1': 'N<=%d' % (5 if tier == 'quick' else 7), 'widths': '<=%d' % (4 if tier == 'quick' else 6),
                                 'native_sweep': 'N<=%d' % (5 if tier == 'quick' else 7)},
                      'stubs': []},
     }
